@@ -25,7 +25,7 @@ llgo = core.build_llgo(w)
 quick = chk.tier == "quick"
 NPROG = int(os.environ.get("C19_NPROG", "12" if quick else "300"))
 NUNITS = int(os.environ.get("C19_NUNITS", "40"))
-WORKERS = int(os.environ.get("C19_WORKERS", "6" if quick else "10"))
+WORKERS = int(os.environ.get("C19_WORKERS", "6" if quick else "12"))
 MAXVIOL = 6
 
 # finding id -> construct the random generator avoids while the finding is open
@@ -49,8 +49,13 @@ def violate(name, files, summary):
     os.chmod(os.path.join(chk.violations[-1]["replay"], "replay.sh"), 0o755)
 
 
-def build(d, exe):
-    rc, so, se = core.llgo_build(w, llgo, d, exe, extra_env={"GOMAXPROCS": "2"}, timeout=2400)
+def build(d, exe, private_cache=None):
+    env = {"GOMAXPROCS": "2"}
+    if private_cache:
+        # the probe of C19-pyval-narrow-int-retypes-cache corrupts every package compiled after it in the same llgo process,
+        # including the runtime packages, whose archives would then be stored in (and served from) the run's shared llgo cache
+        env["XDG_CACHE_HOME"] = w.sub(private_cache)
+    rc, so, se = core.llgo_build(w, llgo, d, exe, extra_env=env, timeout=2400)
     return rc, so + se
 
 
@@ -74,7 +79,7 @@ def probe_job(j):
     meta = {"probe": True, "probe_units": units, "expected": prog["expected"]}
     run.write_program(d, prog["files"], meta)
     exe = os.path.join(d, "p_llgo.bin")
-    rc, log = build(d, exe)
+    rc, log = build(d, exe, private_cache="xdg-" + tag if tag == "probe-b" else None)
     res = {}
     if rc == 0:
         for u in units:
